@@ -22,6 +22,8 @@ func main() {
 	out := flag.String("out", "/verif", "output root (evidence/, reports/, known_findings.json)")
 	list := flag.Bool("list", false, "list properties")
 	manifest := flag.Bool("manifest", false, "print MANIFEST.json generated from the rule registry")
+	overlayFile := flag.String("overlay", "", "JSON file {repo-relative file: replacement file path} applied as a go/packages overlay (used by the sensitivity corpus)")
+	mutantsOnly := flag.Bool("mutants", false, "run only the sensitivity corpus of the property (no verdict on the tree)")
 	flag.Parse()
 	if *manifest {
 		writeManifest(*out)
@@ -43,8 +45,38 @@ func main() {
 		fmt.Fprintf(os.Stderr, "unknown property %q\n", *prop)
 		os.Exit(2)
 	}
+	if *mutantsOnly {
+		res := runMutants(*prop, *repo, *out)
+		fmt.Printf("mutants: applied=%d killed=%d skipped=%d blind=%d\n", res.Applied, res.Killed, res.Skipped, len(res.Blind))
+		if len(res.Blind) > 0 {
+			os.Exit(2)
+		}
+		return
+	}
 	whole := pr.Whole || *tier == "thorough"
-	p, err := engine.Load(*repo, whole, nil)
+	var overlay map[string][]byte
+	if *overlayFile != "" {
+		overlay = map[string][]byte{}
+		b, err := os.ReadFile(*overlayFile)
+		if err != nil {
+			fmt.Println(err)
+			os.Exit(2)
+		}
+		m := map[string]string{}
+		if err := json.Unmarshal(b, &m); err != nil {
+			fmt.Println(err)
+			os.Exit(2)
+		}
+		for rel, repl := range m {
+			data, err := os.ReadFile(repl)
+			if err != nil {
+				fmt.Println(err)
+				os.Exit(2)
+			}
+			overlay[filepath.Join(*repo, rel)] = data
+		}
+	}
+	p, err := engine.Load(*repo, whole, overlay)
 	if err != nil {
 		fmt.Printf("LOAD-FAILURE property=%s: %v\n", *prop, err)
 		os.Exit(2)
@@ -59,6 +91,19 @@ func main() {
 		}()
 		pr.Run(c)
 	}()
+	if *tier == "thorough" && *overlayFile == "" {
+		res := runMutants(*prop, *repo, *out)
+		c.Extra["mutants"] = res
+		code := c.Finish(pr.Explanation, pr.NotDecided, pr.Assumptions)
+		fmt.Printf("sensitivity corpus: applied=%d killed=%d skipped=%d blind=%d\n", res.Applied, res.Killed, res.Skipped, len(res.Blind))
+		if len(res.Blind) > 0 && code == 0 {
+			for _, b := range res.Blind {
+				fmt.Printf("CHECKER-BLIND %s\n", b)
+			}
+			os.Exit(2)
+		}
+		os.Exit(code)
+	}
 	os.Exit(c.Finish(pr.Explanation, pr.NotDecided, pr.Assumptions))
 }
 
